@@ -187,6 +187,28 @@ def _install_interceptors():
             act.filter_log.append((len(a[0]), len(out[0])))
         return out
 
+    orig_cp = _main.get_cauchy_point
+    _installed.update(cp=orig_cp)
+
+    def get_cauchy_point(*a, **k):
+        # use site of the limited-memory matrices: what the solver is about to work with, next to
+        # the memory it holds (read from the caller's frame: observation only, nothing is changed)
+        act = current_act()
+        if act is not None and act.on_use is not None:
+            try:
+                loc = sys._getframe(1).f_locals
+                X, G = loc.get("X"), loc.get("G")
+                mats = a[4] if len(a) > 4 else k.get("mats")
+                info = {"maxcor": loc.get("maxcor"), "eps_SY": loc.get("eps_SY"), "nit": getattr(loc.get("istate"), "nit", None)}
+            except Exception:  # noqa: BLE001
+                X = G = mats = info = None
+            if X is not None and G is not None and mats is not None and info["maxcor"] is not None:
+                act.on_use(act, X, G, mats, info)
+            else:
+                act.fired["use_site_not_observable"] += 1
+        return orig_cp(*a, **k)
+
+    _main.get_cauchy_point = get_cauchy_point
     _main.line_search = line_search
     _main.update_lbfgs_matrices = update_lbfgs_matrices
     _main.make_X_and_G_respect_strong_wolfe = make_X_and_G_respect_strong_wolfe
@@ -403,6 +425,7 @@ class Act:
         record_states=True,
         on_state=None,
         on_update=None,
+        on_use=None,
         trace=None,
         world=None,
     ):
@@ -420,6 +443,7 @@ class Act:
         self.record_states = record_states
         self.on_state = on_state
         self.on_update = on_update
+        self.on_use = on_use
         self.trace = trace  # None | {"count": True} | {"at": N}
         self.world = world
         # observations
@@ -729,13 +753,14 @@ class Act:
             None if ck is None else ck.hess_inv.sk,
             None if ck is None else ck.hess_inv.yk,
             None if ck is None else np.array([ck.fun, ck.nfev, ck.njev, ck.nit], dtype=float),
-        ) + ("" if ck is None else "|" + str(ck.message))
+        ) + ("" if ck is None else "|%s|%s|%s" % (ck.message, ck.get("status"), ck.get("success")))
 
     # ---- run
     def run(self):
         kw = self.kwargs()
         self.inputs_before = self._input_digest()
         g_before = globals_fingerprint(kw.get("logger"))
+        self._printoptions_before = dict(np.get_printoptions())
         st = _stack()
         st.append(self)
         tracer = None
@@ -762,6 +787,11 @@ class Act:
         self.inputs_after = self._input_digest()
         g_after = globals_fingerprint(kw.get("logger"))
         self.globals_changed = sorted(k for k in g_before if g_before[k] != g_after.get(k))
+        if "np.geterr" in self.globals_changed:
+            # recorded; put it back so that later activations of this worker start from the same state
+            np.seterr(**g_before["np.geterr"])
+        if "np.printoptions" in self.globals_changed:
+            np.set_printoptions(**self._printoptions_before)
         if self._fstream is not None:
             self.fired["log_fail"] += self._fstream.attempts
         ACTIVATION_DIGESTS.append((self.result_digest(), self.event_digest()))
